@@ -164,10 +164,12 @@ example : writeCif 1 (C02Doc.oneItem (.lst [])) = .error Gen.ErrCodes.CIF_DISALL
   · apply C13_refuses_value _ (hok _ rfl)
     · simp [C02Doc.oneItem, containersCE, containerCE, loopsCE, loopCE, isScalars, packetsCE, itemsCE, valCE]; decide
     · simp only [C02Doc.oneItem, containersVE, containerVE, loopsVE, packetsVE, itemsVE, valVE, and_true, true_and, Classical.not_not]
-      exact ⟨by decide, by decide⟩
+      exact Or.inr ⟨by decide, by decide⟩
   · apply C13_refuses_char _ (hok _ rfl)
     · simp only [C02Doc.oneItem, containersVE, containerVE, loopsVE, packetsVE, itemsVE, valVE, and_true, true_and]
-      intro h; exact absurd h.1 (by decide)
+      rintro (h | h)
+      · exact absurd h (by decide)
+      · exact absurd h.1 (by decide)
     · simp [C02Doc.oneItem, containersCE, containerCE, loopsCE, loopCE, isScalars, packetsCE, itemsCE, valCE]; decide
   · apply C13_refuses_char
     · simp [containersOk, containerOk]
